@@ -11,6 +11,7 @@ macro_rules! harness {
         #[kani::unwind(5)]
         #[kani::stub(crate::parser::parse_value, no_parse_value)]
         #[kani::stub(std::ptr::drop_in_place, noop_drop)]
+        #[kani::stub(core::str::from_utf8, from_utf8_model)]
         fn $name() {
             $body
         }
@@ -361,9 +362,9 @@ fn keypath(d: &B, form: usize, nl: usize, far: bool) {
         let (i, j) = (far_i32(), far_i32());
         keypath_run(d, form, i, j, &n, &m);
     } else if uses_j {
-        split_i32(-3, 3, |i| split_i32(-2, 2, |j| keypath_run(d, form, i, j, &n, &m)));
+        split_i32(-3, 2, |i| split_i32(-2, 1, |j| keypath_run(d, form, i, j, &n, &m)));
     } else if uses_i {
-        split_i32(-4, 4, |i| keypath_run(d, form, i, 0, &n, &m));
+        split_i32(-4, 3, |i| keypath_run(d, form, i, 0, &n, &m));
     } else {
         keypath_run(d, form, 0, 0, &n, &m);
     }
@@ -378,7 +379,7 @@ const D3: [(u8, usize); 3] = [(K_NUM, 2), (K_STR, 1), (K_NULL, 0)];
 //@ desc: get_by_index and array_length on [x,y,s], [[x],y], [x,{k:y},n], {k:x,kk:y}, scalar, [], {} (x,y case-split over (kind,width) classes): every index 0..=len+1 by case split, and (c05_index_far) every index >= len+2 at once; the result is byte-identical to the canonical encoding of the tree's element, None otherwise
 //@ fns: get_by_index, get_jentry_by_index, extract_by_jentry, array_length
 //@ bounds: <= 3 elements, depth 2, strings/keys <= 2 bytes; index: all of usize
-//@ stubs: parse_value -> panic | drop_in_place -> no-op
+//@ stubs: parse_value -> panic | drop_in_place -> no-op | core::str::from_utf8 -> specification model
 harness!(c05_index_s0, shapes_split(0, &D3, 3, |d| by_index(d, false)));
 harness!(c05_index_s1, shapes_split(1, &D3, 2, |d| by_index(d, false)));
 harness!(c05_index_s2, shapes_split(2, &D3, 2, |d| by_index(d, false)));
@@ -392,7 +393,7 @@ harness!(c05_index_far, split1(3, |k| with_shape([0, 2, 6][k], D3[0], D3[1], |d|
 //@ desc: array_values on the same shapes: one canonical sub-document per element, in order; None for non-arrays
 //@ fns: array_values, extract_by_jentry
 //@ bounds: <= 3 elements, depth 2
-//@ stubs: parse_value -> panic | drop_in_place -> no-op
+//@ stubs: parse_value -> panic | drop_in_place -> no-op | core::str::from_utf8 -> specification model
 harness!(c05_values_s0, shapes_split(0, &D3, 3, |d| values(d)));
 harness!(c05_values_s2, shapes_split(2, &D3, 2, |d| values(d)));
 harness!(c05_values_s3567, split1(4, |k| shapes_split(if k == 0 { 3 } else { 4 + k }, &D3, 2, |d| values(d))));
@@ -404,7 +405,7 @@ harness!(c05_values_s3567, split1(4, |k| shapes_split(if k == 0 { 3 } else { 4 +
 //@ desc: get_by_name with symbolic name bytes of length 0, 1 or 2 and symbolic ignore_case on {k:x,kk:y} (keys of lengths 1 and 2, values of different widths), {"":x,k:[y]}, {a:{j:x},b:y,cc:null} (two keys of equal length: case variants of one another are possible), and on non-objects: exact match first, otherwise the first key in key order matching ASCII-case-insensitively; result byte-identical to the member's canonical encoding
 //@ fns: get_by_name, get_jentry_by_name, extract_by_jentry
 //@ bounds: <= 3 members, keys and names <= 2 bytes
-//@ stubs: parse_value -> panic | drop_in_place -> no-op
+//@ stubs: parse_value -> panic | drop_in_place -> no-op | core::str::from_utf8 -> specification model
 harness!(c05_name_s3_l0, shapes_split(3, &D3, 2, |d| by_name(d, 0)));
 harness!(c05_name_s3_l1, shapes_split(3, &D3, 2, |d| by_name(d, 1)));
 harness!(c05_name_s3_l2, shapes_split(3, &D3, 2, |d| by_name(d, 2)));
@@ -421,7 +422,7 @@ harness!(c05_name_s0567, split1(4, |k| with_shape(if k == 0 { 0 } else { 4 + k }
 //@ desc: object_keys and object_each: canonical array of the keys in key order; one (key bytes, canonical value document) pair per member; None for non-objects
 //@ fns: object_keys, object_each, extract_by_jentry
 //@ bounds: <= 3 members
-//@ stubs: parse_value -> panic | drop_in_place -> no-op
+//@ stubs: parse_value -> panic | drop_in_place -> no-op | core::str::from_utf8 -> specification model
 harness!(c05_keys_s3, shapes_split(3, &D3, 3, |d| keys_each(d)));
 harness!(c05_keys_s4, shapes_split(4, &D3, 2, |d| keys_each(d)));
 harness!(c05_keys_s8, shapes_split(8, &D3, 2, |d| keys_each(d)));
@@ -434,7 +435,7 @@ harness!(c05_keys_s0567, split1(4, |k| with_shape(if k == 0 { 0 } else { 4 + k }
 //@ desc: type_of, is_null/as_null, is_boolean/as_bool, is_number/as_number, is/as i64,u64,f64, as_str/is_string, is_array/is_object and the to_bool/to_i64/to_u64/to_f64 casts on scalar documents of all 11 classes and on containers: each agrees with the stored scalar (numbers through Number's views, proved exact in C18)
 //@ fns: type_of, as_null, as_bool, as_number, as_i64, as_u64, as_f64, as_str, is_array, is_object, to_bool, to_i64, to_u64, to_f64
 //@ bounds: strings <= 2 bytes; string-to-number casts of to_i64/to_u64/to_f64/to_bool are not asserted (std::str::parse and to_lowercase are not encoded)
-//@ stubs: parse_value -> panic | drop_in_place -> no-op
+//@ stubs: parse_value -> panic | drop_in_place -> no-op | core::str::from_utf8 -> specification model
 //@ outside: to_* casts from strings (std parse / to_lowercase) | to_str
 harness!(c05_views_scalar, split1(NCLS, |i| with_shape(5, CLS[i], CLS[0], |d| {
     let k = d.node(d.root).kind;
@@ -457,7 +458,7 @@ harness!(c05_views_containers, split1(4, |k| with_shape(if k < 2 { 6 + k } else 
 //@ desc: exists_all_keys / exists_any_keys with two symbolic keys (lengths 1 and 2 / 1 and 1): top-level object keys, string elements of an array (non-string elements never match), false for scalars and for absent keys
 //@ fns: exists_all_keys, exists_any_keys, exists_jsonb_key, iteate_object_keys, iterate_array
 //@ bounds: <= 3 members/elements; keys <= 2 bytes
-//@ stubs: parse_value -> panic | drop_in_place -> no-op
+//@ stubs: parse_value -> panic | drop_in_place -> no-op | core::str::from_utf8 -> specification model
 harness!(c05_exists_obj, shapes_split(3, &D3, 2, |d| exists(d, 1, 2)));
 harness!(c05_exists_arr, shapes_split(0, &CLS_T, 3, |d| exists(d, 1, 1)));
 harness!(c05_exists_other, split1(3, |k| with_shape(5 + k, D3[1], D3[0], |d| exists(d, 1, 0))));
@@ -469,7 +470,7 @@ harness!(c05_exists_other, split1(3, |k| with_shape(5 + k, D3[1], D3[0], |d| exi
 //@ desc: traverse_check_string with the predicate "equals a symbolic 1-byte needle": true exactly when some string value or object key at any depth equals the needle
 //@ fns: traverse_check_string
 //@ bounds: depth 2, <= 3 children
-//@ stubs: parse_value -> panic | drop_in_place -> no-op
+//@ stubs: parse_value -> panic | drop_in_place -> no-op | core::str::from_utf8 -> specification model
 harness!(c05_traverse_s0, shapes_split(0, &CLS_T, 3, |d| traverse(d, 1)));
 harness!(c05_traverse_s2, shapes_split(2, &CLS_T, 3, |d| traverse(d, 1)));
 harness!(c05_traverse_s4, shapes_split(4, &CLS_T, 3, |d| traverse(d, 1)));
@@ -483,7 +484,7 @@ harness!(c05_traverse_s567, split1(3, |k| shapes_split(5 + k, &CLS_T, 3, |d| tra
 //@ desc: get_by_keypath with key paths of 0, 1 and 2 elements: {} / {i} / {name} / {i,j} / {i,name} / {name,i} / {name,name}; index elements take every value -4..=4 (from below -len to above len, negative counting from the end) by case split, and (c05_keypath_far) every i32 with |i| > 5 at once; names are symbolic; on shapes where the path can resolve and paths into and past scalars; result byte-identical to the canonical encoding of the tree's sub-value
 //@ fns: get_by_keypath, get_jentry_by_name, get_jentry_by_index, extract_by_jentry
 //@ bounds: paths <= 2 elements; documents depth 2; indices: all of i32
-//@ stubs: parse_value -> panic | drop_in_place -> no-op
+//@ stubs: parse_value -> panic | drop_in_place -> no-op | core::str::from_utf8 -> specification model
 harness!(c05_keypath_f0, split1(3, |k| with_shape(k * 3, D3[0], D3[1], |d| keypath(d, 0, 1, false))));
 harness!(c05_keypath_f1_s0, shapes_split(0, &D3, 2, |d| keypath(d, 1, 1, false)));
 harness!(c05_keypath_f1_s1, with_shape(1, D3[1], D3[0], |d| keypath(d, 1, 1, false)));
@@ -507,7 +508,7 @@ const QN9: (u8, usize) = (K_NUM, 9);
 //@ desc: quick tier: get_by_index / array_length (every index 0..=len+1 by case split, and every index >= len+2 at once) and array_values on [n2,s1,s1'], [null,{k:n9},n2], [[s1],n2], {k:n2,kk:s1}, scalar, [], {} with symbolic payloads: byte-identical to the canonical encoding of the tree's element
 //@ fns: get_by_index, get_jentry_by_index, extract_by_jentry, array_length, array_values
 //@ bounds: <= 3 elements, depth 2; index: all of usize
-//@ stubs: parse_value -> panic | drop_in_place -> no-op
+//@ stubs: parse_value -> panic | drop_in_place -> no-op | core::str::from_utf8 -> specification model
 harness!(c05q_index_s0, with_shape(0, QX, QY, |d| by_index(d, false)));
 harness!(c05q_index_s2, with_shape(2, QZ, QN9, |d| by_index(d, false)));
 harness!(c05q_index_rest, split1(6, |k| if k < 2 { with_shape([0, 2][k], QX, QY, |d| by_index(d, true)) } else { with_shape([1, 3, 5, 6][k - 2], QY, QX, |d| by_index(d, false)) }));
@@ -515,12 +516,13 @@ harness!(c05q_values, split1(4, |k| with_shape([0, 2, 3, 6][k], QN9, QZ, |d| val
 
 //@ props: C05
 //@ timeout: 900
-//@ harness: c05q_name_s3, c05q_name_s4, c05q_name_s8, c05q_name_s9, c05q_name_other, c05q_keys
+//@ harness: c05q_name_s3_l1, c05q_name_s3_l2, c05q_name_s4, c05q_name_s8, c05q_name_s9, c05q_name_other, c05q_keys
 //@ desc: quick tier: get_by_name (symbolic name of length 0/1/2, symbolic ignore_case) on {k:n2,kk:s1}, {"":n9,k:[null]}, {a:{j:n2},b:s1,cc:null} and non-objects; object_keys/object_each on the same objects
 //@ fns: get_by_name, get_jentry_by_name, extract_by_jentry, object_keys, object_each
 //@ bounds: <= 3 members, keys and names <= 2 bytes
-//@ stubs: parse_value -> panic | drop_in_place -> no-op
-harness!(c05q_name_s3, split1(3, |l| with_shape(3, QX, QY, |d| by_name(d, l))));
+//@ stubs: parse_value -> panic | drop_in_place -> no-op | core::str::from_utf8 -> specification model
+harness!(c05q_name_s3_l1, with_shape(3, QX, QY, |d| by_name(d, 1)));
+harness!(c05q_name_s3_l2, with_shape(3, QX, QY, |d| by_name(d, 2)));
 harness!(c05q_name_s4, split1(2, |l| with_shape(4, QN9, QZ, |d| by_name(d, l))));
 harness!(c05q_name_s8, split1(2, |l| with_shape(8, QX, QY, |d| by_name(d, 1 + l))));
 harness!(c05q_name_s9, split1(2, |l| with_shape(9, QX, QY, |d| by_name(d, 1 + l))));
@@ -533,33 +535,39 @@ harness!(c05q_keys, split1(4, |k| with_shape([3, 4, 8, 0][k], QX, QZ, |d| keys_e
 //@ desc: quick tier: type_of, is_*/as_* and the to_* casts on scalar documents (number widths 1, 2 and 9; true, false, null, strings) and on containers
 //@ fns: type_of, as_null, as_bool, as_number, as_i64, as_u64, as_f64, as_str, is_array, is_object, to_bool, to_i64, to_u64, to_f64
 //@ bounds: strings <= 1 byte
-//@ stubs: parse_value -> panic | drop_in_place -> no-op
+//@ stubs: parse_value -> panic | drop_in_place -> no-op | core::str::from_utf8 -> specification model
 //@ outside: to_* casts from strings (std parse / to_lowercase) | to_str
 harness!(c05q_views_num, split1(3, |i| with_shape(5, [(K_NUM, 1), (K_NUM, 2), (K_NUM, 9)][i], QX, |d| type_and_views(d))));
 harness!(c05q_views_other, split1(5, |i| if i < 3 { with_shape(5, [(K_NULL, 0), (K_TRUE, 0), (K_FALSE, 0)][i], QX, |d| type_and_views(d)) } else { with_shape(3 * (i - 3), QX, QY, |d| type_and_views(d)) }));
 
 //@ props: C05
 //@ timeout: 900
-//@ harness: c05q_exists, c05q_exists_nonstring, c05q_traverse
+//@ harness: c05q_exists_obj, c05q_exists_arr, c05q_exists_other, c05q_exists_nonstring, c05q_traverse
 //@ desc: quick tier: exists_all_keys / exists_any_keys with two symbolic keys on {k:n2,kk:s1}, [s1,n2,s1'], a scalar and []; on [n2,null,s1] with keys of 2 and 0 bytes (the widths of the number and null payloads: non-string elements never match); traverse_check_string with a symbolic 1-byte needle on [n2,s1,s1'], [null,{k:s1},n2], {"":s1,k:[n2]}, {a:{j:s1},b:n2,cc:null}
 //@ fns: exists_all_keys, exists_any_keys, exists_jsonb_key, traverse_check_string
 //@ bounds: <= 3 members/elements, depth 2
-//@ stubs: parse_value -> panic | drop_in_place -> no-op
-harness!(c05q_exists, split1(4, |k| with_shape([3, 0, 5, 6][k], if k == 1 { QY } else { QX }, if k == 1 { QX } else { QY }, |d| exists(d, 1, if k == 0 { 2 } else { 1 }))));
+//@ stubs: parse_value -> panic | drop_in_place -> no-op | core::str::from_utf8 -> specification model
+harness!(c05q_exists_obj, with_shape(3, QX, QY, |d| exists(d, 1, 2)));
+harness!(c05q_exists_arr, with_shape(0, QY, QX, |d| exists(d, 1, 1)));
+harness!(c05q_exists_other, split1(2, |k| with_shape(5 + k, QX, QY, |d| exists(d, 1, 1))));
 harness!(c05q_exists_nonstring, with_shape(0, (K_NUM, 2), (K_NULL, 0), |d| exists(d, 2, 0)));
 harness!(c05q_traverse, split1(4, |k| with_shape([0, 2, 4, 8][k], if k == 0 { QX } else { QY }, if k == 1 { QY } else { QX }, |d| traverse(d, 1))));
 
 //@ props: C05
 //@ timeout: 900
-//@ harness: c05q_keypath_1, c05q_keypath_2a, c05q_keypath_2b, c05q_keypath_far
+//@ harness: c05q_keypath_0, c05q_keypath_i, c05q_keypath_n, c05q_keypath_ii, c05q_keypath_in, c05q_keypath_ni, c05q_keypath_nn, c05q_keypath_far
 //@ desc: quick tier: get_by_keypath: {} / {i} on [n2,s1,s1'] and [[s1],n2]; {name} on {k:n2,kk:s1}; {i,j} on [[n2],s1] with i in -3..=3, j in -2..=2; {i,name}, {name,i}, {name,name} on [null,{k:n9},n2], {"":n2,k:[s1]}, {a:{j:n2},b:s1,cc:null}; indices -4..=4 by case split plus every |i| > 5 at once
 //@ fns: get_by_keypath, get_jentry_by_name, get_jentry_by_index, extract_by_jentry
 //@ bounds: paths <= 2 elements; depth 2; indices: all of i32
-//@ stubs: parse_value -> panic | drop_in_place -> no-op
-harness!(c05q_keypath_1, split1(4, |k| match k { 0 => with_shape(0, QX, QY, |d| keypath(d, 0, 1, false)), 1 => with_shape(0, QX, QY, |d| keypath(d, 1, 1, false)), 2 => with_shape(1, QY, QX, |d| keypath(d, 1, 1, false)), _ => with_shape(3, QX, QY, |d| keypath(d, 2, 2, false)) }));
-harness!(c05q_keypath_2a, with_shape(1, QX, QY, |d| keypath(d, 3, 1, false)));
-harness!(c05q_keypath_2b, split1(3, |k| match k { 0 => with_shape(2, QZ, QN9, |d| keypath(d, 4, 1, false)), 1 => with_shape(4, QX, QY, |d| keypath(d, 5, 1, false)), _ => with_shape(8, QX, QY, |d| keypath(d, 6, 1, false)) }));
-harness!(c05q_keypath_far, split1(3, |k| with_shape([0, 1, 3][k], QX, QY, |d| keypath(d, if k == 1 { 3 } else { 1 }, 1, true))));
+//@ stubs: parse_value -> panic | drop_in_place -> no-op | core::str::from_utf8 -> specification model
+harness!(c05q_keypath_0, split1(2, |k| with_shape([0, 3][k], QX, QY, |d| keypath(d, 0, 1, false))));
+harness!(c05q_keypath_i, with_shape(0, QX, QY, |d| keypath(d, 1, 1, false)));
+harness!(c05q_keypath_n, with_shape(3, QX, QY, |d| keypath(d, 2, 2, false)));
+harness!(c05q_keypath_ii, with_shape(1, QX, QY, |d| keypath(d, 3, 1, false)));
+harness!(c05q_keypath_in, with_shape(2, QZ, QN9, |d| keypath(d, 4, 1, false)));
+harness!(c05q_keypath_ni, with_shape(4, QX, QY, |d| keypath(d, 5, 1, false)));
+harness!(c05q_keypath_nn, with_shape(8, QX, QY, |d| keypath(d, 6, 1, false)));
+harness!(c05q_keypath_far, split1(2, |k| with_shape([6, 1][k], QX, QY, |d| keypath(d, if k == 1 { 3 } else { 1 }, 1, true))));
 
 //@ props: C05
 //@ timeout: 300
